@@ -24,19 +24,19 @@ NA = {
 
 CHECKS = {
     "C08": {
-        "text": "Seeded search over event-loop schedules and store faults: the real async API runs on a simulated event loop (virtual clock, seeded choice of the next ready handle) over simulated async documents whose item getter suspends, delays, reorders and fails under simulator control, with several evaluations in flight and cancellations injected; every async result is compared with the synchronous twin on the same objects (values, types, order, paths, parts, error class). Sampling, not proof.",
+        "text": "Seeded search over event-loop schedules and store faults: the real async API runs on a simulated event loop (virtual clock, seeded choice of the next ready handle) over simulated async documents whose item getter suspends, delays, reorders and fails (with the error classes the engine suppresses for missing items, too) under simulator control, with several tasks hammering one compiled query, cancellations landing inside in-flight evaluations, filters that die at evaluation time through a simulator-controlled function extension, and documents also given as text or short-read streams; every async result is compared with the synchronous twin on the same objects (values, types, order, paths, parts, error class), and bounded progress is required once faults stop. Sampling, not proof.",
         "design": "4.1",
         "note": "Trusted: CPython asyncio Task/Future machinery above the custom loop; the sync API as reference (differential oracle: a bug identical in both halves is invisible); harness wrappers SimMap/SimSeq return the same items from both getters.",
         "technique": "deterministic simulation: custom asyncio event loop with virtual time + seeded scheduler, fault-injecting async item store, differential oracle vs sync API, choice-list replay/minimisation",
     },
     "C09": {
-        "text": "Seeded search over interleavings of lazy iterators, asyncio tasks and line-pre-empted threads sharing compiled queries, environments (caching on/off, default env) and documents, with abandon/cancel/store-error/gc/regex-cache-purge faults; every produced match is compared at the step that produces it with a sequential reference (fresh environment, caching off, isolated), and documents, contexts and compiled queries are checked unchanged after every step. Sampling, not proof.",
+        "text": "Seeded search over interleavings of lazy iterators, asyncio tasks and line-pre-empted threads sharing compiled queries, environments (caching on/off, default env) and documents, with abandon/cancel/store-error/gc/regex-cache-purge faults, short-lived documents, mass compilation on the shared environment, filters that die at evaluation time, and (in some runs) a differently configured environment living in the same process; every produced match is compared at the step that produces it with a sequential reference (fresh environment, caching off, isolated; computed in a forked child when another configuration is in play), and documents, contexts, compiled queries and matches handed out earlier are checked unchanged. Sampling, not proof.",
         "design": "4.2",
         "note": "Trusted: the isolated cache-off evaluation as sequential specification; thread pre-emption at source-line granularity inside jsonpath/ only (sys.settrace); CPython generators/asyncio.",
         "technique": "deterministic simulation: iterator scheduler, simulated event loop, baton-passed threads pre-empted via sys.settrace; history/linearizability-style check against an isolated sequential reference; fault injection; replay/minimisation",
     },
     "C11": {
-        "text": "Seeded search over histories of entry-point calls on documents supplied as parsed values, JSON text and single-use readable streams (in-memory file stubs with a cursor, real files), with lazy results advanced in seeded interleavings with other reads; results are compared across entry points, document forms and against the left-to-right union/intersection fold. Sampling, not proof.",
+        "text": "Seeded search over histories of entry-point calls on documents supplied as parsed values (private or one shared object), JSON text (also white-space padded) and single-use readable streams (in-memory file stubs with a cursor, short-read pipes, text streams in other encodings, real files; closed by the caller once the call has returned), with lazy results advanced in seeded interleavings with other calls or abandoned, and another environment appearing mid-history; results are compared across entry points, document forms and against the left-to-right union/intersection fold. Sampling, not proof.",
         "design": "4.3",
         "note": "Trusted: compiled.findall(parsed value) as the reference for each simple query; Python json for the text/stream forms; stream stubs model read()/cursor/EOF only (no failing reads: the property gives them no meaning).",
         "technique": "deterministic simulation: single-use stream stubs + iterator scheduler over lazy results, differential oracle between entry points and document forms, replay/minimisation",
@@ -48,13 +48,13 @@ CHECKS = {
         "technique": "deterministic simulation: seeded handle scheduler over a real lazy iterator pipeline, model-based (list) oracle, fault injection of refused operations, replay/minimisation",
     },
     "C15": {
-        "text": "Seeded search over histories of build / apply / failing-apply / caller-mutates-result / re-apply steps on long-lived patch objects built in every form (list of dicts, JSON text, stream, builder chain with string and JSONPointer paths, the patch's own asdicts output); after every step the patch, the caller's list and all retained results are compared with snapshots and with a freshly built patch applied in isolation; addne/addap are compared with add. Sampling, not proof.",
+        "text": "Seeded search over histories of build / apply / failing-apply / caller-mutates-result / re-apply (to fresh copies, to JSON text and streams, and to documents the patch produced earlier) steps on long-lived patch objects built in every form (list, tuple or generator of dicts, JSON text, text and binary streams, builder chain with string and JSONPointer paths, the patch's own asdicts output), with a patch built with other options appearing in the same process in some runs; after every step the patch, the caller's list and all retained results are compared with snapshots and with a freshly built patch applied in isolation; addne/addap are compared with add. Sampling, not proof.",
         "design": "4.5",
         "note": "Trusted: a freshly built patch applied once to a private copy as the reference effect; a ten-line pointer walk decides 'parent is an object that has the member' for the addne/addap clauses, generated only where the statement is unambiguous.",
         "technique": "deterministic simulation: history machine over a shared long-lived value with injected failing applications and caller mutations, snapshot/alias oracle against a fresh-patch reference, replay/minimisation",
     },
     "C18": {
-        "text": "Seeded search over simulated process invocations: the real CLI main() runs in-process behind a process stub (argv, stdin/stdout/stderr, exit status) and an in-memory file system whose stored bytes are corrupted (truncated, flipped, emptied, garbage, invalid UTF-8, UTF-16) before the run; output bytes, exit status and stderr are compared with the corresponding library call on the same bytes; a sample is cross-checked against a real python -m jsonpath subprocess. Sampling, not proof.",
+        "text": "Seeded search over simulated process invocations: the real CLI main() runs in-process behind a process stub (argv, stdin/stdout/stderr, exit status) and an in-memory file system whose stored bytes are corrupted (truncated, flipped, emptied, garbage, invalid UTF-8, UTF-16, BOM, padding) before the run, over every option combination, inline / file / empty / multi-line expressions, documents with non-ASCII text, lone surrogates and non-finite numbers; output bytes, exit status and stderr are compared with the corresponding library call on the same bytes; a sample is cross-checked against a real python -m jsonpath subprocess. Sampling, not proof.",
         "design": "4.6",
         "note": "Trusted: the library call behind each sub-command as reference; json.dumps as 'the JSON serialisation'; the in-process stub for all but the sampled subprocess runs. I/O errors (EIO, ENOSPC, missing file) are not injected: the property gives them no meaning.",
         "technique": "deterministic simulation of the process boundary: in-memory file system + process stub with stored-byte fault injection, differential oracle vs library call, sampled real-subprocess parity, replay/minimisation",
